@@ -45,7 +45,7 @@ import (
 	"honnef.co/go/tools/internal/verifx/vx"
 )
 
-const c10Rule = "variant = base package x {//lint:ignore, //lint:file-ignore} x placement (own line above every declaration/field/statement/case/continuation line; file top) x check list (length 1..2, both orders, over hit id, 2nd id on the line, missing id, wrong-case id, SA*, S*, *, U1000, disabled id) x {reason, none}, plus two-directive variants (a line directive over {hit, miss, SA*, U1000} at every placement with a problem x a second directive: file-ignore at file top of the same/another check, or a line directive stacked above/below naming the same check/another check/*, or stacked without a reason), each x {-show-ignored, not}; non-trivial = the real binary suppressed >= 1 base problem or reported the directive itself"
+const c10Rule = "variant = base package x {//lint:ignore, //lint:file-ignore} x placement (own line above every declaration/field/statement/case/continuation line; file top) x check list (length 1..2, both orders, over hit id, 2nd id on the line, missing id, wrong-case id, SA*, S*, *, U1000, disabled id) x {reason, none}, plus group-position variants (directive as last/middle/first line of a 2-3 line comment group, inside a doc comment, after a licence header; names {hit, miss, U1000, hit without reason}; with and without an unrelated stand-alone directive at the end of the file), plus two-directive variants (a line directive over {hit, miss, SA*, U1000} at every placement with a problem x a second directive: file-ignore at file top of the same/another check, or a line directive stacked above/below naming the same check/another check/*, or stacked without a reason), each x {-show-ignored, not}; non-trivial = the real binary suppressed >= 1 base problem or reported the directive itself"
 
 func (b *c10Base) prepare() {
 	if b.dirLines != nil {
@@ -408,6 +408,67 @@ func c10EnumerateTwo(b *c10Base, ref []c10Prob) []c10Variant {
 	return out
 }
 
+// c10EnumerateGroups lists the variants in which the directive is not the only line of its comment
+// group, and those with an unrelated stand-alone directive elsewhere in the file.
+//
+//	line directives: placement x group position {last2, last3, middle, first; doc at top-level
+//	  declarations} x {hit, miss, U1000, hit without reason} x {no other directive, another one}
+//	file directives: {file top, after the package clause, above a middle placement} x {last2,
+//	  middle, first; licence at the file top} x the same names x the same
+//	the only-line position with another directive elsewhere (hit only)
+//
+// quick: only placements whose line has a problem, and "another directive elsewhere" only with the
+// hitting id; thorough: every placement and the full cross product.
+func c10EnumerateGroups(b *c10Base, ref []c10Prob, full bool) []c10Variant {
+	b.prepare()
+	var out []c10Variant
+	type nm struct {
+		name   string
+		reason bool
+	}
+	add := func(kind string, place int, group string) {
+		names := c10NameSet(b, ref, place)
+		hit, miss := names[0], names[1]
+		for _, extra := range []bool{false, true} {
+			for i, n := range []nm{{hit, true}, {miss, true}, {"U1000", true}, {hit, false}} {
+				if n.name == "U1000" && hit == "U1000" {
+					continue
+				}
+				if extra && i > 0 && !full {
+					continue
+				}
+				if group == "" && (!extra || i > 0) {
+					continue // the only-line position without another directive is the main family
+				}
+				out = append(out, c10Variant{Base: b.Name, Kind: kind, Place: place, Names: []string{n.name}, Reason: n.reason, Group: group, Extra: extra})
+			}
+		}
+	}
+	for _, place := range b.places {
+		onLine := false
+		for _, p := range ref {
+			onLine = onLine || (p.Role == "d" && p.Line == place)
+		}
+		if !onLine && !full {
+			continue
+		}
+		for _, g := range []string{"", "last2", "last3", "middle", "first"} {
+			add("ignore", place, g)
+		}
+		l := b.dirLines[place-1]
+		if strings.HasPrefix(l, "func ") || strings.HasPrefix(l, "type ") || strings.HasPrefix(l, "var ") || strings.HasPrefix(l, "const ") {
+			add("ignore", place, "doc")
+		}
+	}
+	for _, place := range []int{0, -1, b.places[len(b.places)/2]} {
+		for _, g := range []string{"", "last2", "middle", "first"} {
+			add("file-ignore", place, g)
+		}
+	}
+	add("file-ignore", 0, "licence")
+	return out
+}
+
 // ---------------------------------------------------------------------------------------------
 // evaluation
 
@@ -440,6 +501,9 @@ type c10Eval struct {
 	nsample                                  int
 	deadline                                 time.Time
 	unstable                                 int
+	debatable                                map[string]int
+	raw                                      map[string]string
+	extraPairs                               int
 }
 
 func c10Class(e c10Expect, v c10Variant, missing, extra []string) string {
@@ -587,6 +651,38 @@ func (ev *c10Eval) evalPkg(mode string, slots []c10Variant, real [2][][]c10Prob,
 					ok = true
 				}
 			}
+			if v.debatable() {
+				// second reading: the directive is attached to no code line (the line after it is a
+				// comment); then it covers nothing and the usual unmatched-directive rules apply.
+				// Either reading is accepted; a silently dropped directive satisfies neither.
+				w := v
+				w.detached = true
+				e2 := c10Model(b, ref, w, show, ev.enabled)
+				norm2 := c10NormaliseFor(got, w, show, e2)
+				ok2 := false
+				for _, alt := range e2.Alts {
+					ok2 = ok2 || c10Equal(alt, norm2)
+				}
+				if !show {
+					switch {
+					case ok && ok2:
+						ev.debatable["indistinguishable"]++
+					case ok:
+						ev.debatable["attached-to-the-statement-below-the-group"]++
+					case ok2:
+						ev.debatable["attached-to-nothing"]++
+					}
+				}
+				ok = ok || ok2
+			}
+			{
+				var rawl []string
+				for _, p := range got {
+					rawl = append(rawl, p.String())
+				}
+				sort.Strings(rawl)
+				ev.raw[fmt.Sprintf("%s|%v|%s", mode, show, vkey)] = strings.Join(rawl, "\n")
+			}
 			// measured non-triviality: a base problem is gone or ignored in the real report
 			if v.Kind == "ignore" || v.Kind == "file-ignore" {
 				var base []string
@@ -644,6 +740,9 @@ func (ev *c10Eval) evalPkg(mode string, slots []c10Variant, real [2][][]c10Prob,
 			class := c10Class(e, v, missing, extra) + "/" + v.Kind
 			if v.Second != nil {
 				class += "+" + v.Second.How
+			}
+			if v.Group != "" {
+				class += "~" + v.Group
 			}
 			key := "C10:" + class + ":" + vkey
 			if show {
@@ -713,6 +812,41 @@ func (ev *c10Eval) evalPerm(mode string, all []c10Variant, pkgOf map[string][]c1
 			ev.findings = append(ev.findings, c10Finding{vkey: v.key(), show: show, class: class, key: key, mode: mode, slots: []c10Variant{v, w}, pkg: pkgOf[v.key()],
 				msg: fmt.Sprintf("%s vs %s (%s mode, -show-ignored=%v): permuting the check list changes the report\nonly with %q: %v\nonly with %q: %v",
 					v.key(), w.key(), mode, show, v.text(), onlyB, w.text(), onlyA)})
+		}
+	}
+}
+
+// evalExtra: an unrelated stand-alone directive elsewhere in the file must not change the report.
+func (ev *c10Eval) evalExtra(mode string, all []c10Variant, pkgOf map[string][]c10Variant) {
+	for _, v := range all {
+		if !v.Extra {
+			continue
+		}
+		w := v
+		w.Extra = false
+		for _, show := range []bool{false, true} {
+			a, okA := ev.raw[fmt.Sprintf("%s|%v|%s", mode, show, v.key())]
+			b, okB := ev.raw[fmt.Sprintf("%s|%v|%s", mode, show, w.key())]
+			if !okA || !okB {
+				continue
+			}
+			ev.extraPairs++
+			ev.res.Eval(1)
+			if a == b {
+				continue
+			}
+			onlyW, onlyV := c10Diff(strings.Split(a, "\n"), strings.Split(b, "\n"))
+			class := "other-directive-in-file-changes-report/" + v.Kind
+			if v.Group != "" {
+				class += "~" + v.Group
+			}
+			key := "C10:" + class + ":" + w.key()
+			if show {
+				key += "/show-ignored"
+			}
+			ev.findings = append(ev.findings, c10Finding{vkey: w.key(), show: show, class: class, key: key, mode: mode, slots: []c10Variant{w, v}, pkg: pkgOf[v.key()],
+				msg: fmt.Sprintf("%s (%s mode, -show-ignored=%v): appending the unrelated stand-alone directive %q to the file changes the report\nonly without it: %v\nonly with it: %v",
+					w.key(), mode, show, c10ExtraText, onlyW, onlyV)})
 		}
 	}
 }
@@ -791,7 +925,7 @@ func TestVerifC10(t *testing.T) {
 	const par = 16
 
 	ev := &c10Eval{res: res, refs: map[string][]c10Prob{}, enabled: map[string]bool{}, seen: map[string]string{},
-		states: map[string]bool{}, unassertTrailing: map[string]int{}}
+		states: map[string]bool{}, unassertTrailing: map[string]int{}, debatable: map[string]int{}, raw: map[string]string{}}
 
 	// 1. reference reports of the unchanged bases (one package per base)
 	baseMod := &c10Module{id: 0, mode: "base"}
@@ -872,13 +1006,18 @@ func TestVerifC10(t *testing.T) {
 		}
 		return true
 	}
-	var singles, pairs, controls, trailing, twosA, twosRest []c10Variant
+	var singles, pairs, controls, trailing, twosA, twosRest, groupsA, groupsRest []c10Variant
 	total := 0
 	for _, b := range c10Bases {
 		if tw := c10EnumerateTwo(b, ev.refs[b.Name]); b.Name == "A" {
 			twosA = tw
 		} else {
 			twosRest = append(twosRest, tw...)
+		}
+		if gr := c10EnumerateGroups(b, ev.refs[b.Name], vx.Thorough()); b.Name == "A" {
+			groupsA = gr
+		} else {
+			groupsRest = append(groupsRest, gr...)
 		}
 		d, c, tr := c10Enumerate(b, ev.refs[b.Name])
 		total += len(d)
@@ -898,7 +1037,22 @@ func TestVerifC10(t *testing.T) {
 	// order: all single-name variants (base by base, reason before none), the controls, then the
 	// pairs; the representative of a class of disagreements is its first variant in this order
 	// the two-directive variants of base A go first, those of B and C after the controls
-	first := append(append(append(append(append([]c10Variant(nil), twosA...), singles...), controls...), trailing...), twosRest...)
+	// A first slice of base A's group and two-directive variants goes first (two modules each), so
+	// that the modules that are always completed hold some of every family besides base A's
+	// single-name variants; the rest follows the controls.
+	head := func(l []c10Variant, n int) ([]c10Variant, []c10Variant) {
+		if len(l) < n {
+			n = len(l)
+		}
+		return l[:n], l[n:]
+	}
+	gHead, gTail := head(groupsA, 128)
+	tHead, tTail := head(twosA, 128)
+	first := append([]c10Variant(nil), gHead...)
+	for _, l := range [][]c10Variant{tHead, singles, controls, trailing, gTail, tTail, groupsRest, twosRest} {
+		first = append(first, l...)
+	}
+	res.Count("variants_group_position_or_other_directive", int64(len(groupsA)+len(groupsRest)))
 	res.Count("variants_two_directives", int64(len(twosA)+len(twosRest)))
 	all := append(append([]c10Variant(nil), first...), pairs...)
 	res.Count("variants_directive_in_full_space", int64(total))
@@ -928,6 +1082,11 @@ func TestVerifC10(t *testing.T) {
 		switch {
 		case v.Kind == "trailing":
 			continue
+		case v.Group != "" || v.Extra:
+			// group positions: base A, hitting id, no other directive, last line and first line of the group
+			if v.Base != "A" || v.Extra || !v.Reason || v.Names[0] != c10NameSet(b, ev.refs[v.Base], v.Place)[0] || (v.Group != "last2" && v.Group != "first" && v.Group != "licence") {
+				continue
+			}
 		case v.Second != nil:
 			// two directives naming the same hitting id: base A in the quick tier, all bases in the thorough tier
 			same := v.Second.Reason && v.Second.Names[0] == v.Names[0] && v.Names[0] == c10NameSet(b, ev.refs[v.Base], v.Place)[0]
@@ -963,6 +1122,8 @@ func TestVerifC10(t *testing.T) {
 	res.Unassert(fmt.Sprintf("line directives that suppressed nothing and mix U1000 with another name: which answer is right is not decided here (only order-independence is asserted); observed reported %d, silent %d", ev.mixFlagged, ev.mixQuiet))
 	res.Unassert(fmt.Sprintf("`S*` in a directive is matched as a plain glob (it also covers SA…/ST…), unlike `S*` in the checks option; the model follows the plain glob reading of the statement; the category reading would differ in %d evaluations", ev.catDiffer))
 	res.Unassert(fmt.Sprintf("wrong-case `u1000` on the line of an unused object (%d evaluations): either answer accepted, since the statement does not promise case-insensitive names; the binary suppressed in %d", ev.wrongCaseU, ev.wrongCaseU1000Hit))
+	res.Count("other_directive_pairs_compared", int64(ev.extraPairs))
+	res.Unassert(fmt.Sprintf("line directive in the middle of / at the start of a multi-line comment group (the line after the directive is a comment, not code): accepted are 'attached to the statement below the group' and 'attached to nothing, hence reported as unmatched by the usual rules'; never silently dropped is asserted; observed (evaluations without -show-ignored): %v", ev.debatable))
 	res.Unassert(fmt.Sprintf("whether a directive without a reason is additionally reported as unmatched is not asserted (observed %d times)", ev.noReasonUnmatched))
 }
 
@@ -1008,6 +1169,7 @@ func (ev *c10Eval) runAndReport(bin, root string, mods []*c10Module, all []c10Va
 	for _, mode := range []string{"packed", "isolated"} {
 		if modes[mode] {
 			ev.evalPerm(mode, all, pkgOf[mode])
+			ev.evalExtra(mode, all, pkgOf[mode])
 		}
 	}
 	index := map[string]int{}
@@ -1048,7 +1210,7 @@ func (ev *c10Eval) runAndReport(bin, root string, mods []*c10Module, all []c10Va
 		if f.mode == "packed" {
 			reproduced := false
 			if confirm && ci < 12 {
-				sub := &c10Eval{res: vx.New("confirm"), refs: ev.refs, enabled: ev.enabled, seen: map[string]string{}, states: map[string]bool{}, unassertTrailing: map[string]int{}}
+				sub := &c10Eval{res: vx.New("confirm"), refs: ev.refs, enabled: ev.enabled, seen: map[string]string{}, states: map[string]bool{}, unassertTrailing: map[string]int{}, debatable: map[string]int{}, raw: map[string]string{}}
 				var pk []c10Pkg
 				for _, v := range f.slots {
 					pk = append(pk, c10Pkg{Slots: []c10Variant{v}})
@@ -1060,6 +1222,7 @@ func (ev *c10Eval) runAndReport(bin, root string, mods []*c10Module, all []c10Va
 						sub.evalPkg("isolated", p.Slots, [2][][]c10Prob{m.real[0][pi], m.real[1][pi]}, m.unstable[pi])
 					}
 					sub.evalPerm("isolated", f.slots, map[string][]c10Variant{})
+					sub.evalExtra("isolated", f.slots, map[string][]c10Variant{})
 					for _, g := range sub.findings {
 						if g.key == f.key {
 							reproduced = true
